@@ -148,6 +148,9 @@ class Run:
                 self.ev(f"wait {op[1]}")
                 await self.events[op[1]].wait()
                 i += 1
+            elif op[0] == "badrel":
+                self.bad_release(w, op[1])
+                i += 1
             else:
                 k = op[1]
                 self.ev(f"acquire {k}")
@@ -165,6 +168,32 @@ class Run:
                         self.giveups += 1          # left the queue without getting the lock
                     self.handover_check(k)
         return i
+
+    def lock_view(self, k):
+        lock = self.locks[k]
+        own = lock._owning() if lock._owning is not None else None
+        return (lock.locked(), self.index.get(own),
+                [(v, fr(p), f.done(), f.cancelled()) for p, _, f, v in self.entries(k)],
+                [sorted(self.lockidx[id(x)] for x in t._holding_locks) if
+                 self.case["workers"][i]["kind"] == "P" else None for i, t in enumerate(self.tasks)])
+
+    def bad_release(self, w, k):
+        """`release()` by a task that does not hold the lock: must be refused and change nothing"""
+        if k in self.hold.get(w, ()):
+            return                               # it does hold it: not an erroneous release
+        self.ev(f"badrelease {k}")
+        self.tags.add("release-by-non-holder" + ("-while-held" if self.count.get(k, 0) else ""))
+        before = self.lock_view(k)
+        try:
+            self.locks[k].release()
+            self.fail("bad-release", f"worker {w} released lock {k} which it does not hold "
+                                     f"(holder: {self.holder.get(k)}) and was not refused")
+        except (AssertionError, RuntimeError):
+            pass
+        after = self.lock_view(k)
+        if after != before:
+            self.fail("bad-release", f"worker {w}'s release of lock {k} (holder: {self.holder.get(k)}) was "
+                                     f"refused but changed the lock: {before} -> {after}")
 
     def enter(self, w, k):
         self.waiting.pop(w, None)
@@ -290,7 +319,9 @@ class Run:
 
     # ------------------------------------------------------------------ oracles
     def fail(self, kind, detail):
-        if len(self.fails) < 20:
+        # at most three reports per kind, so that a failure repeated at every boundary cannot
+        # crowd out a different kind found later in the same run
+        if sum(1 for k, _ in self.fails if k == kind) < 3:
             self.fails.append((kind, f"after {self.n} handles: {detail}"))
 
     def handover_check(self, k):
@@ -643,14 +674,17 @@ PRI_POOL = ["0", "1", "-1", "2", "-2", "3", "5", "-5", "1/2", "-3/2", "HIGH", "L
             "2f", "-1f"]
 
 
-def gen_block(rng, nl, ne, minlock, budget, hold_bias):
+def gen_block(rng, nl, ne, minlock, budget, hold_bias, badrel=0.0, held=()):
     ops = []
     while budget[0] > 0 and rng.random() < 0.85:
         r = rng.random()
         budget[0] -= 1
-        if r < 0.45 and minlock < nl:
+        free = [k for k in range(nl) if k not in held]
+        if badrel and free and rng.random() < badrel:
+            ops.append(["badrel", rng.choice(free)])
+        elif r < 0.45 and minlock < nl:
             k = rng.randint(minlock, nl - 1)
-            inner = gen_block(rng, nl, ne, k + 1, budget, hold_bias)
+            inner = gen_block(rng, nl, ne, k + 1, budget, hold_bias, badrel, tuple(held) + (k,))
             if rng.random() < hold_bias:
                 inner.insert(rng.randint(0, len(inner)), ["sleep"] if (ne == 0 or rng.random() < 0.6)
                              else ["wait", rng.randrange(ne)])
@@ -683,7 +717,8 @@ def gen_case(rng, mode):
             kind = rng.choice("PPPPTY")
         else:
             kind = rng.choice("PPYYYT")
-        script = gen_block(rng, nl, ne, 0, [rng.randint(2, 7)], 0.7)
+        script = gen_block(rng, nl, ne, 0, [rng.randint(2, 7)], 0.7,
+                           badrel=0.12 if (mode == "C13" and rng.random() < 0.5) else 0.0)
         if not any(o[0] == "acq" for o in script):
             k = rng.randrange(nl)
             script += [["acq", k], ["sleep"], ["rel"]]
@@ -720,7 +755,10 @@ def gen_inherit_case(rng, mode):
     a, b = (0, 1) if nl == 2 else rng.choice([(0, 1), (0, 2), (1, 2)])
     mk = lambda kind, pri, script: {"kind": kind, "pri": pri, "script": script}  # noqa: E731
     pad = lambda n: [["sleep"]] * n  # noqa: E731
-    H = mk("P", pris[0], [["acq", b]] + pad(rng.randint(3, 6)) + [["rel"]])
+    # the holder of b may be a plain / Python task: it takes no part in inheritance, but waiters
+    # queued behind it must still be re-keyed
+    H = mk("P" if mode == "C11" else rng.choice("PPTY"), pris[0],
+           [["acq", b]] + pad(rng.randint(3, 6)) + [["rel"]])
     Q = mk("P", rng.choice(["3", "5", "LOW", "2"]), pad(1) + [["acq", a], ["acq", b], ["sleep"], ["rel"], ["rel"]])
     V = mk(rng.choice("PPT") if mode != "C11" else "P", rng.choice(["0", "1", "NORMAL", "1/2"]),
            pad(rng.randint(1, 2)) + [["acq", b], ["sleep"], ["rel"]])
@@ -784,7 +822,8 @@ def gen_chain_contended_case(rng, mode="C12"):
     pad = lambda k: [["sleep"]] * k  # noqa: E731
     ws = []
     hold_n = n + rng.randint(5, 9)
-    ws.append({"kind": "P", "pri": rng.choice(["5", "3", "LOW", "2", "1"]),
+    ws.append({"kind": "P" if mode == "C11" else rng.choice("PPPTY"),
+               "pri": rng.choice(["5", "3", "LOW", "2", "1"]),
                "script": [["acq", n - 1]] + pad(hold_n) + [["rel"]]})
     for i in range(n - 2, -1, -1):
         ws.append({"kind": "P", "pri": rng.choice(["1", "2", "3", "5", "LOW", "1/2"]),
@@ -797,6 +836,10 @@ def gen_chain_contended_case(rng, mode="C12"):
         kind = "P" if mode == "C11" else rng.choice("PPPT")
         ws.append({"kind": kind, "pri": rng.choice(["0", "NORMAL", "-1", "1/2", "0"]),
                    "script": pad(rng.randint(1, n + 2)) + [["acq", k]] + pad(rng.randint(0, 1)) + [["rel"]]})
+    if mode == "C11":
+        for _ in range(rng.randint(1, 2)):
+            ws.append({"kind": "P", "pri": rng.choice(["-1", "-2", "-3/2", "0", "1/2", "1"]),
+                       "script": pad(rng.randint(3, 10))})
     head, rest = ws[:1], ws[1:]
     if rng.random() < 0.5:
         rng.shuffle(rest)
@@ -804,6 +847,78 @@ def gen_chain_contended_case(rng, mode="C12"):
     if mode == "C12" and rng.random() < 0.15:
         env.append([rng.randint(3, 4 * n + 6), "cancel", rng.randrange(1, len(ws))])
     return {"loop": loop, "nlocks": n, "nevents": 0, "workers": head + rest, "env": env}
+
+
+def gen_reuse_case(rng):
+    """Directed shape for C12: a lock object is used twice.  H takes and releases lock a while nobody
+    waits for it; later K holds a and an urgent task waits for it; H, holding nothing, queues on
+    lock b behind a more urgent, earlier waiter X.  H's key must be its own priority."""
+    loop = rng.choice(["stock", "stock", "prio"])
+    a, b = rng.choice([(0, 1), (1, 0)])
+    mk = lambda kind, pri, script: {"kind": kind, "pri": pri, "script": script}  # noqa: E731
+    pad = lambda n: [["sleep"]] * n  # noqa: E731
+    H = mk("P", rng.choice(["3", "5", "LOW", "2"]),
+           [["acq", a]] + pad(rng.randint(0, 1)) + [["rel"]] + pad(rng.randint(4, 7))
+           + [["acq", b]] + pad(rng.randint(0, 1)) + [["rel"]])
+    K = mk(rng.choice("PPT"), rng.choice(PRI_POOL), pad(rng.randint(2, 3)) + [["acq", a]]
+           + pad(rng.randint(7, 10)) + [["rel"]])
+    U = mk("P", rng.choice(["-5", "-2", "HIGH", "-3/2"]), pad(rng.randint(3, 4)) + [["acq", a], ["rel"]])
+    G = mk(rng.choice("PPT"), rng.choice(PRI_POOL), [["acq", b]] + pad(rng.randint(9, 13)) + [["rel"]])
+    X = mk(rng.choice("PPT"), rng.choice(["0", "NORMAL", "1", "1/2", "-1"]),
+           pad(rng.randint(1, 3)) + [["acq", b]] + pad(rng.randint(0, 1)) + [["rel"]])
+    ws = [H, G, K, U, X]
+    if rng.random() < 0.5:
+        rest = ws[1:]
+        rng.shuffle(rest)
+        ws = [H] + rest
+    return {"loop": loop, "nlocks": 2, "nevents": 0, "workers": ws, "env": []}
+
+
+def gen_headkey_case(rng):
+    """Directed shape for C11 on the priority loop (strict priorities, so the order of arrival is
+    arranged with gate events): C holds L2 and waits inside; B holds L1 and is queued on L2; X, more
+    urgent than B's own priority, is queued on L2 too, so B is *not* at the head of L2's queue.  Then
+    C and a medium task M become runnable and the urgent W arrives on L1 in the same instant: W's
+    priority has to reach C's ready-queue entry through the non-head waiter B, and C must run
+    before M."""
+    mk = lambda pri, script: {"kind": "P", "pri": pri, "script": script}  # noqa: E731
+    pw = rng.choice(["-5", "HIGH", "-4"])
+    pm = rng.choice(["-2", "-3/2", "-3"])
+    px = rng.choice(["-1", "0", "NORMAL", "-1/2"])
+    pc, pb = rng.choice([("1", "2"), ("1", "3"), ("2", "5"), ("1/2", "LOW")])
+    W = mk(pw, [["wait", 2], ["acq", 1], ["rel"]])
+    M = mk(pm, [["wait", 1]] + [["sleep"]] * rng.randint(1, 3))
+    X = mk(px, [["wait", 3], ["acq", 2], ["rel"]])
+    C = mk(pc, [["acq", 2], ["wait", 0]] + [["sleep"]] * rng.randint(0, 2) + [["rel"]])
+    B = mk(pb, [["acq", 1], ["acq", 2], ["rel"], ["rel"]])
+    ws = [W, M, X, C, B]
+    rng.shuffle(ws)
+    env = [[5, "set", 3]] + [[6, "set", e] for e in rng.sample([0, 1, 2], 3)]
+    return {"loop": "prio", "nlocks": 3, "nevents": 4, "workers": ws, "env": env}
+
+
+def gen_fallback_case(rng):
+    """Directed shape for C11 ("falls back when they stop waiting"), priority loop, one cancel:
+    W waits for L0 held by B, B is queued on L1 held by C (chain of length 2); independently W2 waits
+    for L2 held by M.  C and M become runnable in the instant in which W is cancelled: the priority C
+    inherited through the chain must fall back at once, so that M (which blocks W2) runs before C.
+    On the stock loop the same case checks the fall-back of the effective priorities only."""
+    mk = lambda pri, script: {"kind": "P", "pri": pri, "script": script}  # noqa: E731
+    pw = rng.choice(["-5", "HIGH", "-4"])
+    pw2 = rng.choice(["0", "NORMAL", "-1", "1/2"])
+    pc, pb = rng.choice([("1", "2"), ("2", "3"), ("1", "5"), ("2", "LOW")])
+    pmm = rng.choice(["1", "2", "3", "4", "5"])
+    W = mk(pw, [["wait", 3], ["acq", 0], ["rel"]])
+    W2 = mk(pw2, [["wait", 2], ["acq", 2], ["rel"]])
+    C = mk(pc, [["acq", 1], ["wait", 0]] + [["sleep"]] * rng.randint(0, 2) + [["rel"]])
+    B = mk(pb, [["acq", 0], ["acq", 1], ["rel"], ["rel"]])
+    M = mk(pmm, [["acq", 2], ["wait", 1]] + [["sleep"]] * rng.randint(0, 2) + [["rel"]])
+    ws = [W, W2, C, B, M]
+    rng.shuffle(ws)
+    wi = ws.index(W)
+    loop = rng.choice(["prio", "prio", "prio", "stock"])
+    env = [[5, "set", 2], [6, "set", 3], [7, "cancel", wi]] + [[7, "set", e] for e in rng.sample([0, 1], 2)]
+    return {"loop": loop, "nlocks": 3, "nevents": 4, "workers": ws, "env": env}
 
 
 def gen_chain_case(rng):
@@ -889,7 +1004,7 @@ def shrink(case, kind, sched_oracle):
         changed = False
         for wi, wk in enumerate(case["workers"]):
             for oi, op in enumerate(wk["script"]):
-                if op[0] in ("sleep", "wait"):
+                if op[0] in ("sleep", "wait", "badrel"):
                     c = copy.deepcopy(case)
                     del c["workers"][wi]["script"][oi]
                     if bad(c):
